@@ -230,7 +230,7 @@ Proof.
   apply mint_shares_spec in EMint. destruct EMint as (_ & SB1 & SS1 & SP1 & SN1 & SD1 & ST1 & SW1 & SC1 & SF1).
   subst s0. cbn [rs supply direct next_id creation_fee fee_exempt] in SB1, SS1, SP1, SN1, SD1.
   set (p := mkGP id assets init_shares spread exit_fee ext (0, 0)) in *.
-  set (s2 := with_rs M s1 (mkState (pools (rs M s1) ++ [(id, p)]) (bal (rs M s1)) (taker_fee (rs M s1)) (whitelisted (rs M s1)))) in *.
+  set (s2 := with_rs M s1 (mkState (pools (rs M s1) ++ [(id, p)]) (bal (rs M s1)) (taker_fee (rs M s1)) (whitelisted (rs M s1)) (skim (rs M s1)))) in *.
   destruct (if fee_exempt M s (Trader n) then Ok (bal (rs M s2)) else send_coins (bal (rs M s2)) (Trader n) Community (creation_fee M s)) as [b1|] eqn:EFee; [|discriminate].
   destruct (send_coins b1 (Trader n) (PoolAcc id) assets) as [b2|] eqn:ELiq; [|discriminate].
   inversion H; subst s' v; clear H.
